@@ -43,6 +43,10 @@ type target struct {
 	search func() ([]uint32, error) // a query that every live document matches
 	other  func(r *rand.Rand)       // flush / serialise / rotate ...
 	close  func()
+	// probe answers query number i (all matches, ties canonicalised); nil when the target has none.
+	// Used by the read-only phase: concurrent searches without writers must answer exactly like
+	// the same searches run one after the other.
+	probe func(i int) string
 }
 
 func vecOf(id uint32, dim int) []float32 {
@@ -92,6 +96,22 @@ func mkVectorTarget(kind int, r *rand.Rand) target {
 				ids[i] = x.Node.ID()
 			}
 			return ids, err
+		},
+		probe: func(i int) string {
+			q := idx.NewSearch().WithQuery(vecOf(uint32(7*i+3), dim)).WithK(0).WithNProbes(100).WithEfSearch(100000)
+			if i%2 == 1 {
+				// a large id restriction that excludes nothing (its construction sits between the graph
+				// walk and the use of its result)
+				all := make([]uint32, 0, 16000)
+				for g := 0; g < 16; g++ {
+					for j := 1; j <= 1000; j++ {
+						all = append(all, uint32(g*100000+j))
+					}
+				}
+				q = q.WithDocumentIDs(all...)
+			}
+			res, err := q.Execute()
+			return fingerprintVec(res, err)
 		},
 		other: func(r *rand.Rand) {
 			if kind == 4 {
@@ -307,6 +327,38 @@ func stress(tg target, kindCode int, r *rand.Rand, goroutines, opsPer int, check
 	t.Emit(c, "stress."+tg.name, fmt.Sprintf("stress.goroutines_%d", goroutines))
 }
 
+// readPhase: no writers; 8 goroutines repeat 16 different queries and every answer must equal the
+// answer the same query got when run alone beforehand.
+func readPhase(tg target, kindCode int, r *rand.Rand, iters int, t *Trace) {
+	if tg.probe == nil {
+		return
+	}
+	const nq = 16
+	base := make([]string, nq)
+	for i := range base {
+		base[i] = tg.probe(i)
+	}
+	var mismatches int64
+	var wg sync.WaitGroup
+	for g := 0; g < 8; g++ {
+		wg.Add(1)
+		seed := r.Int63()
+		go func() {
+			defer wg.Done()
+			lr := rand.New(rand.NewSource(seed))
+			for it := 0; it < iters; it++ {
+				i := lr.Intn(nq)
+				if tg.probe(i) != base[i] {
+					atomic.AddInt64(&mismatches, 1)
+				}
+			}
+		}()
+	}
+	wg.Wait()
+	t.Emit(NewCase(1102).N(kindCode).N(8*iters).I(mismatches), "readonly."+tg.name)
+	t.Stat("conc.readonly_phase." + tg.name)
+}
+
 func genC11(r *rand.Rand, t *Trace, thorough bool) {
 	rounds := 1
 	opsPer := 40
@@ -320,7 +372,9 @@ func genC11(r *rand.Rand, t *Trace, thorough bool) {
 	for round := 0; round < rounds; round++ {
 		gs := []int{2, 4, 8, 16}
 		for kind := 0; kind <= 4; kind++ {
-			stress(mkVectorTarget(kind, r), kind, r, gs[r.Intn(len(gs))], opsPer, true, t)
+			tg := mkVectorTarget(kind, r)
+			stress(tg, kind, r, gs[r.Intn(len(gs))], opsPer, true, t)
+			readPhase(tg, kind, r, opsPer, t)
 		}
 		stress(mkTextTarget(), 5, r, gs[r.Intn(len(gs))], opsPer, true, t)
 		stress(mkMetaTarget(), 6, r, gs[r.Intn(len(gs))], opsPer, true, t)
